@@ -485,6 +485,18 @@ class OpRunner(object):
                 return tr.bulk_read(op['n'], op.get('timeout'))
             if k == 't_write':
                 return tr.bulk_write(expand(op['content']), op.get('timeout'))
+            # a second TcpTransport object of the same process, connected to another peer ('sibling-device')
+            if k == 't_sib_connect':
+                w = self.run.tcp_world
+                w.sibling_inbox = expand(op['inbox'])
+                self.sib = type(tr)('sibling-device', 5555)
+                return self.sib.connect(op.get('timeout'))
+            if k == 't_sib_read':
+                return self.sib.bulk_read(op['n'], op.get('timeout'))
+            if k == 't_sib_write':
+                return self.sib.bulk_write(expand(op['content']), op.get('timeout'))
+            if k == 't_sib_close':
+                return self.sib.close()
         raise AssertionError('unknown op %r' % k)
 
     # async ------------------------------------------------------------------------------------
